@@ -117,6 +117,8 @@ pub fn record_run(tr: &mut Trace, run: usize, world: &World, tok: &mut StatefulT
     match res {
         Err(msg) => {
             tr.emit(json!({"ev": "result", "run": run, "res": "panic", "msg": msg}));
+            // a panic leaves the tokenizer in an unspecified state: continue with a new one
+            *tok = StatefulTokenizer::new(world.dict.clone(), mode);
             None
         }
         Ok(Err(e)) => {
@@ -132,7 +134,11 @@ pub fn record_run(tr: &mut Trace, run: usize, world: &World, tok: &mut StatefulT
             let mut input = InputBuffer::new();
             let mut nodes: Vec<ResultNode> = Vec::new();
             let mut subset = InfoSubset::all();
-            tok.swap_result(&mut input, &mut nodes, &mut subset);
+            if let Err(msg) = catch(std::panic::AssertUnwindSafe(|| tok.swap_result(&mut input, &mut nodes, &mut subset))) {
+                tr.emit(json!({"ev": "result", "run": run, "res": "panic", "msg": msg, "where": "swap_result"}));
+                *tok = StatefulTokenizer::new(world.dict.clone(), mode);
+                return None;
+            }
             let nb: Vec<(usize, usize)> = nodes.iter().map(|n| (n.begin_bytes(), n.end_bytes())).collect();
             let nc: Vec<Value> = nodes.iter().map(|n| json!([n.begin(), n.end()])).collect();
             let modtext = cps(input.current());
